@@ -14,6 +14,7 @@ def run(ctx):
     ctx.model_check("MC_Fault", "MC_Fault_ok", workers=8)
     for cfg in (("MC_StreamLines_fq_t", "MC_StreamLines_rs_t") if thorough else ("MC_StreamLines_fq_q", "MC_StreamLines_rs_q")) + ("MC_StreamLines_fixed",):
         ctx.model_check("MC_StreamLines", cfg, workers=16, heap="12g", timeout=3400)
+    cross.lineloop(ctx, lambda c: c["mode"] != "set" and c["stop"] == 0, "faults")
     if thorough:
         cross.leg(ctx, "fault-drive", [14, 6000])
     else:
